@@ -4,7 +4,8 @@ open Rt
 
 let op_of (s : String.t) : top =
   let arg () = n_of_int (int_of_string (String.sub s 1 (String.length s - 1))) in
-  match s.[0] with
+  (* S / R / X: the same command, the harness only does not let the timer task run before the next command *)
+  match Char.lowercase_ascii s.[0] with
   | 's' -> TStart
   | 'r' -> TReset
   | 'x' -> TStop
@@ -19,7 +20,7 @@ let run_case (secs : int) (ops : String.t list) : String.t =
   List.iter (fun o ->
       let (s', ob) = tstep i !st (op_of o) in
       let tok = (match ob with
-          | ORun b -> Printf.sprintf "%c%d" o.[0] (if b then 1 else 0)
+          | ORun b -> Printf.sprintf "%c%d" (Char.lowercase_ascii o.[0]) (if b then 1 else 0)
           | OAdv -> "a"
           | OTick (now, inst) -> Printf.sprintf "T@%d/%d" (int_of_n now) (int_of_n inst)
           | OTimeout now -> Printf.sprintf "O@%d" (int_of_n now)) in
